@@ -15,6 +15,33 @@ Theorem c10_float_round_trip : forall m, 0 <= m < 2 ^ 50 -> m - 1 <= rt_milli m 
 Proof. exact rt_milli_bounds. Qed.
 Print Assumptions c10_float_round_trip.
 
+(* "The node reservation": the code's value (resource-list maximum of the kubelet reservation and
+   the annotation's list, reservedCPUs overriding resources.cpu, unreadable annotations ignored) is
+   max(capacity - allocatable, 0) or what the annotation declares, whichever is larger ... *)
+Theorem c10_reservation_formula : forall i, node_reserved i = reservation_spec i.
+Proof. exact (fun i => eq_sym (reservation_spec_eq i)). Qed.
+Print Assumptions c10_reservation_formula.
+
+(* ... it does not depend on the annotation's applyPolicy (Default / ReservedCPUsOnly / anything) ... *)
+Theorem c10_reservation_policy_irrelevant : forall p i,
+  node_reserved (mkB (b_cap i) (b_alloc i) (with_policy p (b_anno i)) (b_thr i) (b_min i) (b_node i)
+                     (b_pods i) (b_hosts i)) = node_reserved i.
+Proof. exact node_reserved_policy. Qed.
+Print Assumptions c10_reservation_policy_irrelevant.
+
+(* ... nor does the budget *)
+Theorem c10_budget_policy_irrelevant : forall idx d i, budget (perturb 5 idx d i) = budget i.
+Proof. exact budget_policy_irrelevant. Qed.
+Print Assumptions c10_budget_policy_irrelevant.
+
+(* ... and it is at least the kubelet reservation and one core per distinct cpu the annotation lists *)
+Theorem c10_reservation_lower : forall i,
+  Z.max (b_cap i - match b_alloc i with Some a => a | None => 0 end) 0 <= node_reserved i
+  /\ (an_state (b_anno i) = 3 -> an_cpus_ok (b_anno i) = true -> an_cpus (b_anno i) <> [] ->
+      1000 * dedup_len (an_cpus (b_anno i)) <= node_reserved i).
+Proof. exact (fun i => conj (node_reserved_ge_kubelet i) (node_reserved_ge_cpus i)). Qed.
+Print Assumptions c10_reservation_lower.
+
 (* The budget is capacity * threshold / 100 minus non-BE pods, non-BE host applications and
    max(measured system use, node reservation), floored by capacity * min / 100; where the float64
    round trip of the reservation is lossy the reservation counts one milli-CPU less. *)
@@ -31,9 +58,9 @@ Theorem c10_budget_system_floor : forall i, node_reserved i < 2 ^ 50 -> node_res
 Proof. exact sys_at_least_reserved_any. Qed.
 Print Assumptions c10_budget_system_floor.
 
-(* The budget does not grow when any pod or host application uses more and the rest of the node
-   does not use less (same node, same configuration). *)
-Theorem c10_budget_antitone : forall i i', node_reserved i < 2 ^ 50 -> grows i i' -> budget i' <= budget i.
+(* The budget does not grow when any pod or host application uses more, the rest of the node
+   does not use less and the node reservation is not smaller (same capacity, same configuration). *)
+Theorem c10_budget_antitone : forall i i', node_reserved i' < 2 ^ 50 -> grows i i' -> budget i' <= budget i.
 Proof. exact budget_antitone_any. Qed.
 Print Assumptions c10_budget_antitone.
 
@@ -49,6 +76,11 @@ Print Assumptions c10_budget_antitone_figures.
 Theorem c10_budget_perturb_grows : forall kind idx d i, 1 <= kind <= 3 -> 0 <= d -> grows i (perturb kind idx d i).
 Proof. exact perturb_grows. Qed.
 Print Assumptions c10_budget_perturb_grows.
+
+(* ... and so is perturbation 6 (the kubelet keeps d more back) *)
+Theorem c10_budget_perturb6_grows : forall idx d i, 0 <= d -> grows i (perturb 6 idx d i).
+Proof. exact perturb6_grows. Qed.
+Print Assumptions c10_budget_perturb6_grows.
 
 (* a non-BE pod uses more while the node total stays (the inferred system part shrinks): the
    budget does not grow by more than the one milli-CPU the separate truncations can cost *)
@@ -70,6 +102,7 @@ Print Assumptions c10_budget_decided.
 
 (* the decision procedure the check runs on the implementation, run on the model *)
 Theorem c10_budget_model : forall k idx d i, node_reserved i < 2 ^ 50 ->
+  node_reserved (perturb k idx d i) < 2 ^ 50 ->
   Forall (fun p => 0 <= p_use p) (b_pods i) ->
   budget_code k idx d i [budget i; budget (perturb k idx d i)] = 0.
 Proof. exact budget_code_model_any. Qed.
@@ -262,17 +295,18 @@ Example c10_lse_order_dependent_old_pool :
 Proof. vm_compute. repeat split; discriminate || reflexivity. Qed.
 
 Example c10_nv_rt : rt_ok w_rt = true /\ rt_exact w_rt = false
-                    /\ rt_exact (mkB 8000 7000 0 100 None 0 [] []) = true.
+                    /\ rt_exact (mkB 8000 (Some 7000) anno_none 100 None 0 [] []) = true.
 Proof. vm_compute. repeat split; reflexivity. Qed.
 
 Example c10_nv_grows :
-  grows (mkB 8000 8000 0 65 None 200 [mkPod Q_LS false true true 64] [])
-        (mkB 8000 8000 0 65 None 264 [mkPod Q_LS false true true 128] [])
-  /\ budget (mkB 8000 8000 0 65 None 264 [mkPod Q_LS false true true 128] [])
-     < budget (mkB 8000 8000 0 65 None 200 [mkPod Q_LS false true true 64] []).
+  grows (mkB 8000 (Some 8000) anno_none 65 None 200 [mkPod Q_LS false true true 64] [])
+        (mkB 8000 (Some 8000) anno_none 65 None 264 [mkPod Q_LS false true true 128] [])
+  /\ budget (mkB 8000 (Some 8000) anno_none 65 None 264 [mkPod Q_LS false true true 128] [])
+     < budget (mkB 8000 (Some 8000) anno_none 65 None 200 [mkPod Q_LS false true true 64] []).
 Proof.
   split.
   - unfold grows. cbn [b_cap b_alloc b_anno b_thr b_min b_pods b_hosts].
+    split; [reflexivity|]. split; [vm_compute; discriminate|].
     repeat (split; [reflexivity|]). split; [|split; [constructor|vm_compute; discriminate]].
     constructor; [|constructor]. unfold pod_le. cbn. repeat split; discriminate.
   - vm_compute. reflexivity.
@@ -285,8 +319,17 @@ Example c10_nv_cases :
   wf_case [3; 3000; 0; 2; 0; 1; 4; 0;0;0;0; 1;0;0;0; 2;1;0;0; 3;1;0;0; 2; 2;2;2;3; 1;2;2;3; 0;0; 0;0] = true
   /\ wf_case [2; 3; 3; 0;0;0;0; 1;0;0;0; 2;1;0;0] = true
   /\ wf_case [1; 8000; 6999; 0; 0; 100; 0; 0; 0; 0; 0; 0; 0; 0] = true
-  /\ wf_case [4; 20000; 80000; -1] = true.
+  /\ wf_case [4; 20000; 80000; -1] = true
+  /\ wf_case [6; 16000; 1; 16000; 3; 2; 0; 0; 0; 4; 0;1;2;3; 65; 0; 0; 224; 5; 0; 0; 1; 3;0;1;1;192; 0] = true.
 Proof. vm_compute. repeat split; reflexivity. Qed.
+
+(* seeded mutant C10-m7: 16-cpu node, kubelet reserves nothing, annotation reservedCPUs 0-3 with
+   applyPolicy ReservedCPUsOnly, LS pod using 3 cores, node 3.5 cores, threshold 65 %: the budget is
+   16000*65/100 - 3000 - max(500, 4000) = 3400 under every policy (the mutant gave 6900) *)
+Example c10_nv_policy :
+  run_case [6; 16000; 1; 16000; 3; 2; 0; 0; 0; 4; 0;1;2;3; 65; 0; 0; 224; 5; 0; 0; 1; 3;0;1;1;192; 0] = [3400; 3400]
+  /\ prop_case [6; 16000; 1; 16000; 3; 2; 0; 0; 0; 4; 0;1;2;3; 65; 0; 0; 224; 5; 0; 0; 1; 3;0;1;1;192; 0] [6900; 3400] = 101.
+Proof. vm_compute. split; reflexivity. Qed.
 
 (* the history of seeded mutant C10-m3: quota round, recovered, same quota round again *)
 Example c10_nv_history :
